@@ -552,6 +552,10 @@ class C15(Monitor):
                     yield {"k": "string", "s": "SP", "i": i, "pos": pos}
             for i, c in enumerate(self.programs()):
                 yield dict(c, s="PR", pi=i)
+            # unreachable multi-line code after `return`: <=3.9 documents with trailing
+            # line entries and extra offsets
+            for i, c in enumerate(spaces.line_dead_cases(self.tier)):
+                yield dict(c, s="PX", pi=i)
         else:
             for v in ("3.7", "3.8", "3.9", "3.10"):
                 for sh in range(self.producer_shards):
@@ -563,7 +567,7 @@ class C15(Monitor):
         if self.stage == 1:
             if not PRODUCER:
                 return 0
-            return consts.size(self.tier) * 2 + len(STRINGS) * len(STRING_POSITIONS) + self.nprog()
+            return consts.size(self.tier) * 2 + len(STRINGS) * len(STRING_POSITIONS) + self.nprog() + spaces.n_line_dead_cases(self.tier)
         return 4 * self.producer_shards
 
     def check(self, case, stats):
